@@ -239,3 +239,94 @@ Proof.
   repeat split; try (vm_compute; reflexivity); try (vm_compute; discriminate);
     repeat constructor; try (vm_compute; reflexivity); try (vm_compute; discriminate).
 Qed.
+
+(* ===== source tie: the Python text of spec_augment_draw_parameters ======================================
+   PV.Gen.C08Src.draw_body is regenerated from /repo/src/pydrobert/torch/_img.py on every run by
+   harness/py2coq/translate.py (the whole body; statement markers cut it into the blocks head / time warp /
+   frequency warp / time masks / frequency masks / return, run one by one in TieBlocks*.v); MiniPy.Interp is
+   its semantics; torch operations mean what MiniTorch.OpsC08 says through SrcRun.ext08, with the float32
+   rounding [r32 a] of the model's arithmetic after every float32 operation; torch.rand is the oracle [rnd]
+   (call index, flat position), exactly as the model takes the variates as data; Python-level float
+   arithmetic is MiniPy's (exact): the model instance is [SrcRun.pyq a] (r64 = Qred, the identity up to ==).
+   See notes/C08_tie_report.md. *)
+From PV Require MiniPy.Syntax MiniPy.Interp Gen.C08Src C08.SrcRun C08.TieBlocks2 C08.TieModel C08.Tie C08.TieCor.
+
+(* for every arithmetic satisfying the rounding laws (c08_ieee_rounding_laws: [ieee] does; [exact] does), every
+   oracle, eps, configuration, N, T, F and lengths (omitted, or N values in (0, T]): interpreting the source
+   returns an 8-tuple that reads back (as the harness reads torch's tensors) as one parameter set per batch
+   element, equal to Model.draw on the variates the oracle served - mask groups (t_0, t), (f_0, f) EQUAL
+   (max_ = floor(min(len * p, M)), nums, widths zeroed beyond nums, starts), warp groups equal as rationals *)
+Theorem c08_source_draw_is_model : forall a rnd eps c N T F lens,
+  rounding_laws a -> TieBlocks2.lens_ok N T lens ->
+  exists v st ps,
+    Interp.run (SrcRun.ext08 a rnd) C08Src.draw_body (SrcRun.draw_vars eps c N T F lens) = Interp.Ok v st
+    /\ SrcRun.read_out N v = Some ps /\ length ps = N
+    /\ forall n, (n < N)%nat ->
+         SrcRun.params_eqv (nth n ps (mkParams None None None None))
+           (draw (SrcRun.pyq a) eps c (Z.of_nat F) (SrcRun.len_of T lens n) (SrcRun.uv_of rnd c n)).
+Proof. exact Tie.draw_tie. Qed.
+Print Assumptions c08_source_draw_is_model.
+
+(* at the exact arithmetic the masks are those of [draw exact], the function of c08_draw_within_bounds /
+   c08_time_mask_caps_and_inside_valid / c08_freq_mask_bounds *)
+Theorem c08_source_draw_exact : forall rnd eps c N T F lens, TieBlocks2.lens_ok N T lens ->
+  exists v st ps,
+    SrcRun.run_draw exact rnd eps c N T F lens = Interp.Ok v st /\ SrcRun.read_out N v = Some ps /\ length ps = N
+    /\ forall n, (n < N)%nat ->
+         let m := draw exact eps c (Z.of_nat F) (SrcRun.len_of T lens n) (SrcRun.uv_of rnd c n) in
+         p_tm (nth n ps TieCor.no_params) = p_tm m /\ p_fm (nth n ps TieCor.no_params) = p_fm m.
+Proof. exact TieCor.source_masks_exact. Qed.
+Print Assumptions c08_source_draw_exact.
+
+(* COMPOSED, purely about the interpreted source (over Q): every time mask it draws has
+   0 <= t <= max_time_mask, t <= len * max_time_mask_proportion, at most num_time_mask and at most
+   len * num_time_mask_proportion masks are non-empty, 0 <= t_0 and t_0 + t <= len (inside the valid length);
+   every frequency mask has 0 <= f <= max_freq_mask, 0 <= f_0, f_0 + f <= F *)
+Theorem c08_source_masks_within_limits : forall rnd eps c N T F lens,
+  0 < eps -> eps <= 1 -> (0 <= c_Mt c)%Z -> (0 <= c_Mf c)%Z -> 0 <= c_pt c /\ c_pt c <= 1 -> 0 <= c_npt c ->
+  (forall k i, unit_u (rnd k i)) -> TieBlocks2.lens_ok N T lens ->
+  exists v st ps,
+    SrcRun.run_draw exact rnd eps c N T F lens = Interp.Ok v st /\ SrcRun.read_out N v = Some ps /\ length ps = N
+    /\ forall n, (n < N)%nat ->
+         opt_ok (tmasks_ok 0 c (SrcRun.len_of T lens n)) (p_tm (nth n ps TieCor.no_params))
+         /\ opt_ok (fmasks_ok c (Z.of_nat F)) (p_fm (nth n ps TieCor.no_params)).
+Proof. exact TieCor.source_masks_within_limits. Qed.
+Print Assumptions c08_source_masks_within_limits.
+
+(* the same under float32 rounding (the arithmetic the harness compares bit for bit with torch): every
+   dtype's eps, every float32 variate u <= 1 - 2^-24, T and F below 2^24 *)
+Theorem c08_source_masks_float32 : forall d rnd c N T F lens,
+  (Z.of_nat T < two24)%Z -> (Z.of_nat F < two24)%Z -> (0 <= c_Mt c)%Z -> (0 <= c_Mf c)%Z -> 0 <= c_pt c /\ c_pt c <= 1 ->
+  (forall k i, grid_u (rnd k i)) -> TieBlocks2.lens_ok N T lens ->
+  exists v st ps,
+    SrcRun.run_draw ieee rnd (eps_of d) c N T F lens = Interp.Ok v st /\ SrcRun.read_out N v = Some ps /\ length ps = N
+    /\ forall n, (n < N)%nat ->
+         let len := SrcRun.len_of T lens n in
+         opt_ok (Forall (fun b : Z * Z =>
+                   (0 <= snd b <= c_Mt c)%Z /\ z2q (snd b) <= r32 ieee (lenq ieee len * r32 ieee (c_pt c))
+                   /\ (0 <= fst b)%Z /\ (fst b + snd b <= len)%Z)) (p_tm (nth n ps TieCor.no_params))
+         /\ opt_ok (fmasks_ok c (Z.of_nat F)) (p_fm (nth n ps TieCor.no_params)).
+Proof. exact TieCor.source_masks_float32. Qed.
+Print Assumptions c08_source_masks_float32.
+
+(* the masks do not need the rounding laws: for EVERY arithmetic the per-element formulas the MiniTorch
+   operations compute in the time-mask / frequency-mask blocks are Model.time_masks / Model.freq_masks *)
+Theorem c08_source_time_mask_formulas : forall a eps c len (rt rt0 : nat -> Q),
+  time_masks (SrcRun.pyq a) eps c len (map rt (seq 0 (c_nt c))) (map rt0 (seq 0 (c_nt c)))
+  = map (fun m => let t := TieBlocks.s_t a (TieModel.om_of eps) (TieBlocks.s_cap a (c_pt c) (c_Mt c) (lenq a len))
+                               (TieBlocks.s_cap a (c_npt c) (Z.of_nat (c_nt c)) (lenq a len)) m (rt m) in
+                  (TieBlocks.s_t0 a (TieModel.om_of eps) (lenq a len) t (rt0 m), t)) (seq 0 (c_nt c)).
+Proof. exact TieModel.time_masks_src. Qed.
+Print Assumptions c08_source_time_mask_formulas.
+
+(* non-vacuity: the configuration of c08_nonvacuous on a ragged batch of two; the interpreted source (float32
+   rounding) reproduces the model's draws, and the hypotheses of the theorems above hold *)
+Example c08_source_nonvacuous :
+  let c := mkCfg 100 2 3 2 1 2 (1 # 2) 1 in
+  let top := 16777215 # 16777216 in
+  let u := mkUV top 0 (1 # 2) top [top; top] [top; 0] [top] [top] in
+  TieBlocks2.lens_ok 2 7 (Some [7; 3]%Z)
+  /\ SrcRun.src_draw_check F32 c 2 7 4 (Some [7; 3]%Z) [u; u] (SrcRun.model_draw ieee eps32 c 7 4 (Some [7; 3]%Z) [u; u]) = true
+  /\ option_map (map p_tm) (SrcRun.src_draw ieee (SrcRun.rnd_of (SrcRun.calls_of c [u; u])) eps32 c 2 7 4 (Some [7; 3]%Z))
+     = Some [Some [(4, 3); (0, 3)]; Some [(0, 3); (0, 0)]]%Z.
+Proof. cbv zeta. repeat split; vm_compute; reflexivity. Qed.
